@@ -1091,3 +1091,103 @@ spec("C13", plan=plan_c13,
           "and the outer state iff the attempt matched (action-based variants: and actions are enabled), and is destroyed before the "
           "attempt is left on every path.  Non-trivial: runs in which a state scope ended without success or two or more scopes were created.",
      assumptions=COMMON_ASSUME + ["the switch table is emitted by the generator from the grammar text, the scope discipline is evaluated by harness/engine.hpp"])
+
+# ---------------------------------------------------------------------------- C11
+C11_INCLUDES = C09_INCLUDES + ("<tao/pegtl/contrib/analyze.hpp>", "<tao/pegtl/contrib/raw_string.hpp>")
+C11_OPS = CORE_OPS * 2 + [o for o in CONV_OPS if o not in ("strict", "star_strict")] + ["enable", "disable", "state", "action", "control",
+                                                                                            "try_catch_return_false", "try_catch_any_raise_nested", "raise"]
+
+
+def illformed_family():
+    """Systematically ill-formed grammars: nullable bodies under every repetition, direct and indirect left recursion
+    through every combinator and position, also behind nullable / may-fail-without-consuming prefixes."""
+    N = gen.N
+    X = lambda: N("one", s="a")
+    Y = lambda: N("one", s="b")
+    out = []
+    nullable = [lambda: N("success"), lambda: N("opt", [X()]), lambda: N("star", [X()]), lambda: N("at", [X()]), lambda: N("not_at", [X()]),
+                lambda: N("eof"), lambda: N("rep", [X()], n=0), lambda: N("rep_opt", [X()], n=2), lambda: N("sor", [X(), N("success")]),
+                lambda: N("seq", [N("opt", [X()]), N("at", [Y()])]), lambda: N("opt_must", [X(), Y()]), lambda: N("pad_opt", [X(), Y()]),
+                lambda: N("until", [N("at", [N("any")])]), lambda: N("rep_max", [X()], n=2), lambda: N("bof"), lambda: N("partial", [X(), Y()]),
+                lambda: N("star_partial", [X(), Y()]), lambda: N("rematch", [N("opt", [X()]), N("success")]), lambda: N("if_then_else", [X(), Y(), N("success")])]
+    reps = [lambda b: N("star", [b]), lambda b: N("plus", [b]), lambda b: N("until", [Y(), b]), lambda b: N("list", [b, N("opt", [N("one", s="c")])]),
+            lambda b: N("rep_min", [b], n=1), lambda b: N("star_partial", [b]), lambda b: N("star_must", [b, N("success")]),
+            lambda b: N("list_tail", [b, N("opt", [N("one", s="c")])]), lambda b: N("pad", [Y(), b]), lambda b: N("pad_opt", [Y(), b]),
+            lambda b: N("star", [N("seq", [b, N("opt", [Y()])])]), lambda b: N("list_must", [b, N("success")]), lambda b: N("plus", [N("sor", [Y(), b])])]
+    for nb in nullable:
+        for rp in reps:
+            out.append(gen.Grammar([N("seq", [rp(nb()), N("opt", [N("any")])])]))
+    # raw_string contents are repeated until the closing bracket: nullable contents loop
+    for nb in nullable:
+        g = gen.Grammar([N("sor", [N("raw_string", [nb()], omc="[=]"), N("any")])], alphabet="[]a=", maxlen=(4, 5))
+        out.append(g)
+        g = gen.Grammar([N("seq", [N("raw_string", [N("sor", [N("one", s="a"), nb()])], omc="[=]"), N("opt", [N("any")])])], alphabet="[]a=", maxlen=(4, 5))
+        out.append(g)
+    # left recursion: R0 refers to itself at the start of ...
+    R0 = lambda: gen.ref(0)
+    places = [lambda: N("seq", [R0(), X()]), lambda: N("sor", [X(), N("seq", [R0(), Y()])]), lambda: N("sor", [N("seq", [R0(), Y()]), X()]),
+              lambda: N("sor", [N("at", [X()]), N("seq", [R0(), N("any")])]), lambda: N("sor", [N("not_at", [X()]), Y(), N("seq", [R0(), N("any")])]),
+              lambda: N("seq", [N("at", [R0()]), X()]), lambda: N("seq", [N("not_at", [R0()]), X()]), lambda: N("seq", [N("rematch", [R0(), X()])]),
+              lambda: N("seq", [N("rematch", [N("plus", [X()]), R0()]), Y()]), lambda: N("state", [R0(), X()], id=1), lambda: N("action", [R0(), X()], fam=1),
+              lambda: N("control", [R0(), X()]), lambda: N("enable", [R0(), X()]), lambda: N("disable", [R0(), X()]),
+              lambda: N("try_catch_return_false", [N("seq", [R0(), X()])]), lambda: N("try_catch_any_raise_nested", [N("seq", [R0(), X()])]),
+              lambda: N("if_then_else", [R0(), X(), Y()]), lambda: N("if_then_else", [N("at", [X()]), R0(), Y()]), lambda: N("if_then_else", [X(), Y(), R0()]),
+              lambda: N("must", [R0(), X()]), lambda: N("seq", [N("opt", [R0()]), X()]), lambda: N("until", [R0(), X()]), lambda: N("star", [R0(), X()]),
+              lambda: N("plus", [N("seq", [R0(), X()])]), lambda: N("if_must", [R0(), X()]), lambda: N("opt_must", [R0(), X()]), lambda: N("list", [R0(), X()]),
+              lambda: N("pad", [R0(), N("one", s="c")]), lambda: N("pad", [X(), R0()]), lambda: N("rep", [R0(), X()], n=2), lambda: N("rep_min_max", [R0()], min=0, max=2),
+              lambda: N("minus", [R0(), X()]), lambda: N("partial", [R0(), X()]), lambda: N("seq", [N("list_tail", [X(), R0()])])]
+    prefixes = [None, lambda: N("opt", [X()]), lambda: N("at", [X()]), lambda: N("star", [Y()]), lambda: N("success"), lambda: N("not_at", [Y()]),
+                lambda: N("sor", [Y(), N("success")]), lambda: N("bof"), lambda: N("rep_opt", [Y()], n=1)]
+    for pl in places:
+        for pf in prefixes:
+            body = pl()
+            if pf is not None:
+                body = N("seq", [pf(), body])
+            out.append(gen.Grammar([N("sor", [body, N("any")])]))
+    # indirect recursion through a second / third rule
+    for pl in places[:12]:
+        b = pl()
+        for n in b.walk():
+            if n.op == "ref":
+                n.p["i"] = 1
+        out.append(gen.Grammar([N("sor", [b, N("any")]), N("seq", [N("opt", [X()]), gen.ref(2)]), N("sor", [Y(), N("seq", [gen.ref(0), N("any")])])]))
+    return out
+
+
+def plan_c11(tier, seed, workdir, case):
+    if case is not None:
+        g = gen.Grammar.from_json(case["grammar"])
+        g.analyze = True
+        ts = write_tus(workdir, "replay", [g], 1, 1, C11_INCLUDES)
+        return [Run(ts[0], args=["--prop", "C11"])]
+    q = tier == "quick"
+    G = gen.Gen(seed * 1000 + 97, ops=C11_OPS, max_depth=3 if q else 4, nrules=(1, 4),
+                atoms=["any", "one", "one2", "not_one", "range", "string2", "eof", "success", "failure", "ab", "success", "bof", "eolf"])
+    gs = []
+    for _ in range(250 if q else 3000):
+        gs.append(G.grammar_unfiltered())
+    fam = illformed_family()
+    for g in gs + fam:
+        g.analyze = True
+        g.alphabet = g.alphabet or "abc"
+    runs = []
+    for t in write_tus(workdir, "l1", gs, 20 if q else 60, 1, C11_INCLUDES):
+        runs.append(Run(t, args=["--prop", "C11"]))
+    for t in write_tus(workdir, "l2", fam, 40, 1, C11_INCLUDES):
+        runs.append(Run(t, args=["--prop", "C11"]))
+    return runs
+
+
+spec("C11", plan=plan_c11,
+     rule="grammars drawn WITHOUT well-formedness filter (core, convenience, scoping and try_catch rules, 1..4 named rules) plus a systematic "
+          "ill-formed family: 19 nullable bodies (success, opt, star, at, not_at, eof, bof, rep<0>, rep_opt, rep_max, sor<x,success>, "
+          "opt_must, pad_opt, until<at<any>>, partial, star_partial, rematch, if_then_else ...) under 13 repetitions (star, plus, until, "
+          "list, rep_min, star_partial, star_must, list_tail, pad, pad_opt, list_must, ...); direct left recursion through 34 combinator "
+          "positions (first of seq, every alternative of sor, at/not_at, rematch head and re-match rule, state/action/control/enable/"
+          "disable, try_catch, if_then_else cond/then/else, must, opt, until cond, star/plus body, if_must, list, pad, rep, minus, partial, "
+          "list_tail) each also behind 8 nullable or may-fail-without-consuming prefixes, and indirect recursion through 2-3 rules.  "
+          "Oracle: a dynamic witness - the reference model, run with an on-stack set, re-enters the same expression at the same position "
+          "or repeats an iteration that succeeded without consuming, for some input up to length 4/5 - confirmed on the real parser "
+          "(does not terminate within 30000 rule attempts / 250 nested attempts); if analyze<G>(-1) == 0 for such a grammar: violation.  "
+          "False positives of the analysis are not judged.  Non-trivial: grammars with a confirmed witness (truly ill-formed).",
+     assumptions=COMMON_ASSUME + ["rules without analyze_traits (strict, star_strict) do not compile under analyze<> and are outside the domain"])
